@@ -153,8 +153,8 @@ Lemma field_mask_fixed_spec w k : 1 <= w <= 64 ->
   N.testbit (field_mask true w) k = (k <? w).
 Proof.
   intros Hw. unfold field_mask. cbn [andb].
-  destruct (N.eqb_spec w 64) as [->|Hne].
-  - apply ones64_spec.
+  destruct (N.leb_spec 64 w) as [Hge|Hne].
+  - assert (w = 64) by lia. subst. apply ones64_spec.
   - rewrite not64_spec, shl64_spec by lia. rewrite ones64_spec. bool_cases.
 Qed.
 
